@@ -25,6 +25,8 @@ pub enum AliasMode {
     Bind(u16),
     /// empty topic + alias (uses)
     Use(u16),
+    /// empty topic + the k-th alias that an earlier PUBLISH of this direction bound on this connection (falls back to alias 1)
+    UseLive(u16),
 }
 
 #[derive(Clone, Copy, Debug, PartialEq, Eq, Hash, Serialize, Deserialize)]
@@ -46,6 +48,8 @@ pub enum Sel {
     /// k-th element of a *different* live set (wrong kind for the id)
     Wrong(u16),
     Arb(u32),
+    /// k-th element of the relevant live set; the op is skipped when the set is empty (keeps connections alive longer)
+    LiveOnly(u16),
 }
 
 #[derive(Clone, Copy, Debug, PartialEq, Eq, Hash, Serialize, Deserialize)]
@@ -456,6 +460,9 @@ pub struct App {
     /// in-flight ids whose RequestSendPacket said release_packet_id_if_send_error = Some(id)
     pub releasable: BTreeSet<u32>,
     pub tag: u32,
+    /// aliases bound on this connection by PUBLISH packets passed to the transport / by inbound PUBLISH packets fed
+    pub alias_out: BTreeSet<u16>,
+    pub alias_in: BTreeSet<u16>,
 }
 
 impl App {
@@ -505,6 +512,31 @@ impl App {
                     self.forget_id(*id);
                 }
             }
+        }
+        for e in &st.events {
+            match e {
+                NEvent::Send { ap: AP::Connect { .. }, .. } | NEvent::Recv(AP::Connect { .. }) => {
+                    self.alias_out.clear();
+                    self.alias_in.clear();
+                }
+                NEvent::Send { ap: ap @ AP::Publish { topic, .. }, .. } if !topic.is_empty() => {
+                    if let Some(a) = ap.prop_u16(pid::TOPIC_ALIAS) {
+                        self.alias_out.insert(a);
+                    }
+                }
+                _ => {}
+            }
+        }
+        if let Call::Recv { ap: Some(ap @ AP::Publish { topic, .. }), .. } = &st.call {
+            if !topic.is_empty() && !st.has_error() {
+                if let Some(a) = ap.prop_u16(pid::TOPIC_ALIAS) {
+                    self.alias_in.insert(a);
+                }
+            }
+        }
+        if let Call::Closed = &st.call {
+            self.alias_out.clear();
+            self.alias_in.clear();
         }
         match &st.call {
             Call::Acquire(Ok(id)) => {
@@ -715,11 +747,26 @@ pub fn payload_of(tag: u32, plen: u8) -> Vec<u8> {
     v
 }
 
+/// `UseLive(k)` becomes `Use(a)` with a the k-th alias bound on this connection in that direction (alias 1 when none is)
+pub fn resolve_alias(m: AliasMode, bound: &BTreeSet<u16>) -> AliasMode {
+    match m {
+        AliasMode::UseLive(k) => AliasMode::Use(nth16(bound, k).unwrap_or(1)),
+        other => other,
+    }
+}
+
+fn nth16(s: &BTreeSet<u16>, k: u16) -> Option<u16> {
+    if s.is_empty() {
+        return None;
+    }
+    s.iter().nth(crate::engine::pick_idx(k, s.len())).copied()
+}
+
 pub fn publish_ap(v: V, qos: u8, dup: bool, retain: bool, topic: u8, alias: AliasMode, pid: Option<u32>, payload: Vec<u8>) -> AP {
     let t = TOPICS[topic as usize % TOPICS.len()].to_string();
     let (topic, props) = match (v, alias) {
         (V::V5, AliasMode::Bind(a)) => (t, vec![Prop::u16(pid::TOPIC_ALIAS, a)]),
-        (V::V5, AliasMode::Use(a)) => (String::new(), vec![Prop::u16(pid::TOPIC_ALIAS, a)]),
+        (V::V5, AliasMode::Use(a)) | (V::V5, AliasMode::UseLive(a)) => (String::new(), vec![Prop::u16(pid::TOPIC_ALIAS, a)]),
         _ => (t, vec![]),
     };
     AP::Publish { v, dup, qos, retain, topic, pid: if qos > 0 { pid } else { None }, props, payload }
@@ -748,6 +795,17 @@ pub fn ack_ap(v: V, kind: AckKind, pid: u32, rc: u8) -> AP {
                 AP::Ack { v, kind, pid, rc: Some(code), props: Some(props) }
             }
         }
+    }
+}
+
+/// DISCONNECT of an op: rc 0 = shortest form; 1..=15 = a reason code; >= 16 = Normal disconnection with a Reason String of
+/// 90 + 3 * (rc - 16) characters, so that the Remaining Length straddles the one-byte / two-byte boundary
+pub fn disconnect_ap(v: V, rc: u8) -> AP {
+    match v {
+        V::V311 => AP::Disconnect { v, rc: None, props: None },
+        V::V5 if rc == 0 => AP::Disconnect { v, rc: None, props: None },
+        V::V5 if rc < 16 => AP::Disconnect { v, rc: Some(crate::gen::DISCONNECT_RC[rc as usize % crate::gen::DISCONNECT_RC.len()]), props: None },
+        V::V5 => AP::Disconnect { v, rc: Some(0), props: Some(vec![Prop { id: pid::REASON_STRING, val: PVal::Str("d".repeat(90 + 3 * (rc as usize - 16))) }]) },
     }
 }
 
@@ -849,6 +907,7 @@ impl World {
         let union = |sets: &[&BTreeSet<u32>]| -> BTreeSet<u32> { sets.iter().flat_map(|s| s.iter().cloned()).collect() };
         match sel {
             Sel::Live(k) => nth(&union(right), k).unwrap_or(1),
+            Sel::LiveOnly(k) => nth(&union(right), k).unwrap_or(0),
             Sel::Wrong(k) => nth(&union(wrong), k).unwrap_or(2),
             Sel::Arb(v) => self.clamp_id(v),
         }
@@ -888,7 +947,8 @@ impl World {
                     } else {
                         self.app.tag += 1;
                         let pl = payload_of(self.app.tag, *plen);
-                        Act::Send(publish_ap(v, *qos, false, *retain, *topic, *alias, pid, pl))
+                        let alias = resolve_alias(*alias, &self.app.alias_out);
+                        Act::Send(publish_ap(v, *qos, false, *retain, *topic, alias, pid, pl))
                     }
                 }
                 Op::Subscribe { id, n } => match self.resolve_id(*id, &mut pre) {
@@ -936,10 +996,7 @@ impl World {
                 }
                 Op::Pingreq => Act::Send(AP::Pingreq { v }),
                 Op::Pingresp => Act::Send(AP::Pingresp { v }),
-                Op::Disconnect { rc } => Act::Send(match v {
-                    V::V311 => AP::Disconnect { v, rc: None, props: None },
-                    V::V5 => AP::Disconnect { v, rc: if *rc == 0 { None } else { Some(crate::gen::DISCONNECT_RC[*rc as usize % crate::gen::DISCONNECT_RC.len()]) }, props: None },
-                }),
+                Op::Disconnect { rc } => Act::Send(disconnect_ap(v, *rc)),
                 Op::Auth { rc } => {
                     let r = crate::gen::AUTH_RC[*rc as usize % 3];
                     Act::Send(AP::Auth { rc: Some(r), props: Some(vec![Prop { id: pid::AUTHENTICATION_METHOD, val: PVal::Str("m".into()) }]) })
@@ -969,7 +1026,8 @@ impl World {
                     let seen: BTreeSet<u32> = a.peer_ids_seen.iter().cloned().collect();
                     let pid = if *qos > 0 { Some(self.sel_from(*id, &[&seen], &[&a.in_q2_comp]).max(1)) } else { None };
                     self.app.tag += 1;
-                    let ap = publish_ap(v, *qos, *dup, false, *topic, *alias, pid, payload_of(self.app.tag | 0x8000_0000, *plen));
+                    let alias = resolve_alias(*alias, &self.app.alias_in);
+                    let ap = publish_ap(v, *qos, *dup, false, *topic, alias, pid, payload_of(self.app.tag | 0x8000_0000, *plen));
                     Act::Recv(refcodec::encode(&ap, self.t.cfg.idw), Some(ap))
                 }
                 Op::PeerAck { kind, sel, rc } => {
@@ -982,8 +1040,12 @@ impl World {
                             self.sel_from(*sel, &[&seen], &[&a.out_q1])
                         }
                     };
-                    let ap = ack_ap(v, *kind, id.max(1), *rc);
-                    Act::Recv(refcodec::encode(&ap, self.t.cfg.idw), Some(ap))
+                    if id == 0 && matches!(sel, Sel::LiveOnly(_)) {
+                        Act::Skip("nothing in flight for this acknowledgement")
+                    } else {
+                        let ap = ack_ap(v, *kind, id.max(1), *rc);
+                        Act::Recv(refcodec::encode(&ap, self.t.cfg.idw), Some(ap))
+                    }
                 }
                 Op::PeerSubscribe { id, n } => {
                     let ap = AP::Subscribe { v, pid: self.clamp_id(*id).max(1), props: vec![], entries: (0..(*n % 3 + 1)).map(|i| (TOPICS[i as usize].to_string(), i % 3)).collect() };
@@ -995,13 +1057,21 @@ impl World {
                 }
                 Op::PeerSuback { sel } => {
                     let id = self.sel_from(*sel, &[&a.sub_pending], &[&a.unsub_pending, &a.out_q1]);
-                    let ap = AP::Suback { v, pid: id.max(1), props: vec![], codes: vec![0] };
-                    Act::Recv(refcodec::encode(&ap, self.t.cfg.idw), Some(ap))
+                    if id == 0 && matches!(sel, Sel::LiveOnly(_)) {
+                        Act::Skip("no SUBSCRIBE pending")
+                    } else {
+                        let ap = AP::Suback { v, pid: id.max(1), props: vec![], codes: vec![0] };
+                        Act::Recv(refcodec::encode(&ap, self.t.cfg.idw), Some(ap))
+                    }
                 }
                 Op::PeerUnsuback { sel } => {
                     let id = self.sel_from(*sel, &[&a.unsub_pending], &[&a.sub_pending, &a.out_q1]);
-                    let ap = AP::Unsuback { v, pid: id.max(1), props: vec![], codes: if v == V::V5 { vec![0] } else { vec![] } };
-                    Act::Recv(refcodec::encode(&ap, self.t.cfg.idw), Some(ap))
+                    if id == 0 && matches!(sel, Sel::LiveOnly(_)) {
+                        Act::Skip("no UNSUBSCRIBE pending")
+                    } else {
+                        let ap = AP::Unsuback { v, pid: id.max(1), props: vec![], codes: if v == V::V5 { vec![0] } else { vec![] } };
+                        Act::Recv(refcodec::encode(&ap, self.t.cfg.idw), Some(ap))
+                    }
                 }
                 Op::PeerPingreq => {
                     let ap = AP::Pingreq { v };
@@ -1012,10 +1082,7 @@ impl World {
                     Act::Recv(refcodec::encode(&ap, 2), Some(ap))
                 }
                 Op::PeerDisconnect { rc } => {
-                    let ap = match v {
-                        V::V311 => AP::Disconnect { v, rc: None, props: None },
-                        V::V5 => AP::Disconnect { v, rc: if *rc == 0 { None } else { Some(crate::gen::DISCONNECT_RC[*rc as usize % crate::gen::DISCONNECT_RC.len()]) }, props: None },
-                    };
+                    let ap = disconnect_ap(v, *rc);
                     Act::Recv(refcodec::encode(&ap, 2), Some(ap))
                 }
                 Op::PeerAuth { rc } => {
@@ -1242,7 +1309,8 @@ pub fn id_src() -> BoxedStrategy<IdSrc> {
 
 pub fn sel() -> BoxedStrategy<Sel> {
     prop_oneof![
-        7 => any::<u16>().prop_map(Sel::Live),
+        6 => any::<u16>().prop_map(Sel::LiveOnly),
+        1 => any::<u16>().prop_map(Sel::Live),
         1 => any::<u16>().prop_map(Sel::Wrong),
         1 => prop_oneof![Just(1u32), Just(2), Just(3), Just(65535), Just(u32::MAX), 1u32..12].prop_map(Sel::Arb),
     ]
